@@ -10,43 +10,43 @@ CHECKS = {
     "C01": ("locks.cpp", "grant registry (S/SIX/X matrix) and torn-payload monitor evaluated at every step of every interleaving of every client program of families p2x2, p3x1 (+optimistic/PrepareRead families) on all three lock classes",
             "stateless schedule exploration of the implementation (preemption bound 2 quick / 3 thorough, state cache), grant-registry monitor"),
     "C02": ("locks.cpp", "every explored execution must terminate (deadlock / lost hand-off rule of the scheduler) and a fresh LockX by an epilogue thread must succeed without waiting; final lock word must be free",
-            "schedule exploration with waiting made visible (spin detection), deadlock rule, epilogue thread"),
+            "schedule exploration with waiting made visible (spin detection), deadlock rule, epilogue thread; breadth-first search over single-thread guard-operation histories keyed by implementation state (--galg)"),
     "C03": ("locks.cpp", "version ghost + commit counter: every VerifyVersion/TryLock*/GetVersion result is checked at its deciding atomic step against the registry and the ghost version, optimistic payload snapshots are compared with the committed value",
-            "schedule exploration of OptimisticLock programs (readers x writers x lockers, start versions 0/2^32-1), version-ghost monitor"),
+            "schedule exploration of OptimisticLock programs (readers x writers x lockers, start versions 0/2^32-1), version-ghost monitor; breadth-first search over single-thread histories of guard/optimistic operations keyed by implementation state"),
     "C04": ("epoch.cpp", "after every ForwardGlobalEpoch: each guard created before the call and still alive is in the list published for the new epoch and GetMinEpoch() <= its epoch; includes ID reuse after thread exit with forced identical probe starts (capacity 1 and 2), recycled std::thread::id, manager re-creation, and every well-formed worker script up to 4 (thorough 5) operations against a set of coordinator scripts",
             "schedule exploration of EpochManager workers x coordinator incl. thread exit under the scheduler; list read through the library's own accessor"),
-    "C05": ("idm.cpp", "range, stability and uniqueness-among-running-threads of every GetThreadID result for every multiset of probe start positions, capacities 1-4, up to capacity+2 threads; churn after a wave in which every ID was held and released, next to long-lived holders (barrier / stay operations that cost no preemption)",
-            "schedule exploration of IDManager with forced probe starts (fake std::thread::id), all start multisets"),
-    "C06": ("zipf_enum.cpp", "range and inverse-CDF bracket of operator() for every equivalence class of 64-bit engine outputs of every configuration of the grid, both classes, four integer types",
+    "C05": ("idm.cpp", "range, stability and uniqueness-among-running-threads of every GetThreadID result for every multiset of probe start positions, capacities 1-4, up to capacity+2 threads; churn after a wave in which every ID was held and released, next to long-lived holders (barrier / stay operations that cost no preemption); sequential claim/release/oversubscription histories at capacities 5..257 (harness/idm_caps.cpp)",
+            "schedule exploration of IDManager with forced probe starts (fake std::thread::id), all start multisets; complete enumeration of a finite menu of sequential histories per capacity"),
+    "C06": ("zipf_enum.cpp", "range and inverse-CDF bracket of operator() for every equivalence class of 64-bit engine outputs of every configuration of the grid, both classes, four integer types; wide 32-bit ranges (bin counts next to 2^30, 2^31, 2^32) of the approximate class",
             "exhaustive enumeration of engine-output classes per configuration (bounded input model checking against the CDF)"),
     "C07": ("locks.cpp", "operator bool of every guard after every operation equals the reference ownership model; every release call performs exactly one release, non-owning guards write nothing; sequential guard algebra (move/convert/destroy chains on two locks) and the same with a contender",
-            "operation-sequence exploration (guards1: sequential, guards2/3: under all interleavings with contenders) against an ownership model; deadlock with an empty grant registry = release that did not release"),
+            "explicit-state breadth-first search over all admissible single-thread guard-operation histories (acquire, destroy, default/move construction, move assignment, conversions; depth 8/5/6 quick) replayed on the real guards and keyed by their object representation; the same algebra under all interleavings with contenders (guards2/3) against an ownership model; deadlock with an empty grant registry = release that did not release"),
     "C08": ("locks.cpp", "happens-before event sets computed from the memory orders written in the source (C++20 release sequences, fences) on every explored SC interleaving: the end of every earlier conflicting section must happen-before the later section's grant",
-            "schedule exploration + declared-order happens-before set analysis at every grant"),
+            "schedule exploration + declared-order happens-before set analysis at every grant (an overlap of conflicting grants counts as unordered)"),
     "C09": ("locks.cpp", "ghost version advanced exactly at exclusive-grant ends to the prescribed value; invariant version-field == ghost after every write to the lock word; XGuard::GetVersion; wrap-around and SetVersion arguments; final word = version only",
-            "schedule exploration of OptimisticLock with start versions near 2^32, version-ghost invariant on every step"),
+            "schedule exploration of OptimisticLock with start versions near 2^32, version-ghost invariant on every step; breadth-first search over single-thread guard-operation histories (versions 0 and 2^32-2) keyed by implementation state"),
     "C10": ("locks.cpp", "no other SIX/X grant inside a conversion span, no S holder at UpgradeToX return, payload read under SIX unchanged at upgrade return, for U/D/DU/UD chains against 1-2 other threads",
             "schedule exploration of conversion programs, grant-registry monitor with conversion spans"),
     "C11": ("locks.cpp", "arrival stamp = first effective write to the lock word by a request; at every grant no conflicting request with an earlier stamp may still be waiting",
-            "schedule exploration of MCSLock (3x1, 2x2, conv3; 4x1 thorough; unbounded for 3x1 thorough), arrival/grant order monitor"),
+            "schedule exploration of MCSLock (3x1, 2x2, conv3, fifo4; thorough: 4 threads at bound 2-3), arrival/grant order monitor"),
     "C12": ("locks.cpp", "deterministic heap shadow: no access to a freed node, no access to a node sitting in a thread's spare-node cache, live nodes <= threads + outstanding requests, zero nodes after all threads exited (thread-exit destructors run under the scheduler)",
-            "schedule exploration of MCSLock with heap shadow (arena allocator, never reuses within an execution)"),
+            "schedule exploration of MCSLock with heap shadow (arena allocator, never reuses within an execution); breadth-first search over single-thread guard-operation histories with the node bound and leak check"),
     "C13": ("locks.cpp", "PrepareRead result checked at its deciding step: non-owning => version valid and no X registered; owning => registry empty at the granting CAS, VerifyVersion true, exactly one release (also after moves); retry numbers 0 and 1",
-            "schedule exploration of PrepareRead callers x lockers with CPP_UTILITY_SPINLOCK_RETRY_NUM 0 and 1"),
-    "C14": ("idm.cpp", "oversubscribed runs (capacity+1, capacity+2 threads) must terminate; after all threads exited a fresh wave of `capacity` threads obtains IDs without any of them having to wait inside GetThreadID; the same when a client pins the heartbeat of an exiting thread; nobody waits while a free ID exists (salted thread ids)",
+            "schedule exploration of PrepareRead callers x lockers with CPP_UTILITY_SPINLOCK_RETRY_NUM 0 and 1; single-thread history search including composite-guard moves"),
+    "C14": ("idm.cpp", "oversubscribed runs (capacity+1, capacity+2 threads) must terminate; after all threads exited a fresh wave of `capacity` threads obtains IDs: at quiescence (every unfinished thread really waits) no thread may be stuck inside GetThreadID while fewer running threads hold IDs than there are IDs; the same when a client pins the heartbeat of an exiting thread and for salted thread ids; sequential histories at capacities 5..257",
             "schedule exploration incl. thread exit (TLS destructors scheduled) and a gated second wave"),
     "C15": ("idm.cpp", "at every GetThreadID return all heartbeats handed out to earlier owners of that ID are expired; heartbeats of running threads are never expired; all expired after join (shared_ptr reference drop is a schedulable step)",
             "schedule exploration of the exit path against concurrent claims (instrumented shared_ptr/weak_ptr)"),
     "C16": ("epoch.cpp", "per observer the current epoch never decreases, +1 per forward, GetMinEpoch <= later GetCurrentEpoch, quiescent forward publishes exactly {cur, cur-1}; sequential histories across 256-epoch node boundaries",
             "schedule exploration of observers x coordinator + breadth-first search over sequential histories"),
     "C17": ("epoch.cpp", "list returned by GetProtectedEpochs: strictly descending, front == guard epoch, contains epoch-1, object and buffer alive in the heap shadow and bytewise unchanged until the guard dies, with forwards creating/retiring list nodes and bulk stalls",
-            "schedule exploration positioned at node boundaries (prefix 0..767 forwards), heap shadow, list snapshots"),
+            "schedule exploration positioned at node boundaries (prefix 0..767 forwards) and in a middle node with a recycled ID slot, heap shadow, list snapshots"),
     "C18": ("zipf_enum.cpp", "every GetCDF value of every configuration of the grid against a long-double Kahan reference: exact class value/monotone/last==1, approximate class == exact for n<=100, last==1, within 0.01 for n>=1000 and 0<=alpha<=3; skew grid includes the neighbourhood of the alpha==1 shortcut",
             "exhaustive enumeration of all bins over a stated finite grid of configurations against a reference model"),
     "C19": ("zipf_enum.cpp", "original/twin/copy/moved/assigned instances give identical sequences, object bytes and table unchanged by calls, max<min throws; a shared const generator used by 2-3 threads under all interleavings at call granularity yields each thread its solo sequence",
             "enumeration over a configuration grid + unbounded schedule exploration at call granularity"),
     "C20": ("epoch.cpp", "breadth-first search over sequential histories {enter_i, leave_i, F, F x254}: after every single forward the list equals the reference set, min is its last element, live list nodes <= ranges+1, and destroying the manager frees everything",
-            "explicit-state BFS over operation histories replayed on the real object (turn-taking threads), reference set model"),
+            "explicit-state BFS over operation histories replayed on the real object (turn-taking threads), reference set model; exact-list rule on quiescent forwards of concurrent two-worker programs"),
 }
 NOTE = ("trusted: engine/vshim.hpp instrumentation (token-level replacement of atomics, fences, pause/sleep, thread id, shared_ptr), the scheduler/"
         "explorer, monitors, g++ 12 and glibc TLS-destructor order; executions are sequentially consistent; bounds as reported in the evidence")
@@ -65,7 +65,7 @@ m = {
     "engines": [
         {"name": "vsched", "path": "engine/vs_engine.cpp", "serves_properties": ["C01", "C02", "C03", "C04", "C05", "C07", "C08", "C09", "C10", "C11", "C12", "C13", "C14", "C15", "C16", "C17", "C19", "C20"],
          "kind_free_text": "stateless model checker for the compiled C++ code: real threads, one at a time, preemption-bounded DFS with state cache, spin detection, deterministic heap with shadow state, declared-order happens-before sets"},
-        {"name": "seqbfs", "path": "harness/epoch.cpp", "serves_properties": ["C16", "C20"], "kind_free_text": "breadth-first search over sequential operation histories replayed on the real EpochManager"},
+        {"name": "seqbfs", "path": "harness/epoch.cpp", "serves_properties": ["C02", "C03", "C07", "C09", "C12", "C13", "C16", "C20"], "kind_free_text": "breadth-first search over sequential operation histories replayed on the real objects: EpochManager histories against a reference model (harness/epoch.cpp --histories), guard-operation histories of the three lock classes keyed by implementation state (harness/locks.cpp --galg)"},
         {"name": "inputenum", "path": "harness/zipf_enum.cpp", "serves_properties": ["C06", "C18", "C19"], "kind_free_text": "exhaustive enumeration of input equivalence classes over a finite configuration grid against a reference model"},
     ],
     "checks": [],
